@@ -84,6 +84,16 @@ def run(tier):
         return ["    \x1b[1mindented\x1b[m text tokZ%dZ" % k, "  \x1b[32m+\x1b[m not a stat line", " leading \x1b[33mspace\x1b[m"][k % 3]
     plans.append(stream.Plan("rs+relative/indented", rnd.sample(withtext, min(600, len(withtext))), ["--relative-paths"], None,
                              indented_payload, skin={"other_payload": True}, env={"GIT_PREFIX": "sub/"}))
+    mstat = tlc.run_tlc("MC_Stream", cfg="MC_Stream_stat", workers=8, coverage=False, heap="8g", timeout=1800)
+    tlc.require_ok(mstat, "MC_Stream_stat")
+    if mstat.violated:
+        V.drift.append(f"module=Impl_Stream design-level {mstat.violated} violated with diffstat lines")
+    # `git log --stat` lines: free text, except that with relative paths requested delta rewrites their path
+    covstat, covstatstats = stream.cover_histories(pairs=False, cfg="Cover_Stream_stat")
+    covstat = [h for h in covstat if any(l["c"] == "stat" for l in h)]
+    plans.append(stream.Plan("rs/stat", covstat, [], None))
+    plans.append(stream.Plan("rs+relative/stat", covstat, ["--relative-paths"], {"rel": True}, skin={"git_prefix": "sub/"},
+                             env={"GIT_PREFIX": "sub/"}))
     res = stream.execute_plans(plans)
     failed, n = stream.validate_runs([x[4] for x in res])
     log(f"[{PID}] replayed {n} runs with free text around sections, {len(failed)} rejected by Obs_Stream")
